@@ -528,7 +528,9 @@ fn opt_case(cases: &[(usize, usize, usize)]) -> Option<String> {
             let name = opt_name(i);
             let key = OPT_ATTRS[*at].2.map(|k| k.to_string()).unwrap_or(name.clone());
             let overridden = OPT_ATTRS[*at].0.contains("type = \"Ovr\"") && lang != "python";
-            let t = if overridden { "Ovr".to_string() } else { let mut l2: Box<dyn Language> = match lang { "typescript" => Box::new(TypeScript::default()), "kotlin" => Box::new(Kotlin::default()), "swift" => Box::new(Swift::default()), "scala" => Box::new(Scala::default()), "go" => Box::new(Go::default()), _ => Box::new(Python::default()) };
+            // an override replaces the translated type, not the optionality: where the marker of Option<T> is part of the type text
+            // (Kotlin / Swift `?`, Scala `Option[..]`, Go `*`) it is written around the override
+            let t = if overridden { match (lang, depth >= 1) { ("kotlin", true) | ("swift", true) => "Ovr?".to_string(), ("scala", true) => "Option[Ovr]".to_string(), ("go", true) => "*Ovr".to_string(), _ => "Ovr".to_string() } } else { let mut l2: Box<dyn Language> = match lang { "typescript" => Box::new(TypeScript::default()), "kotlin" => Box::new(Kotlin::default()), "swift" => Box::new(Swift::default()), "scala" => Box::new(Scala::default()), "go" => Box::new(Go::default()), _ => Box::new(Python::default()) };
                       match l2.format_type(&f.ty, &["T".to_string()]) { Ok(t) => t, Err(_) => continue } };
             // TypeScript's `| null` for Option<Option<T>> is part of the member, an override replaces only the type text
             // Scala: the recorded finding kf-c04-scala-default (non-Option member with serde(default) is written `T = _`) is reported separately
